@@ -162,6 +162,33 @@ func (s *sup) execute(exec, start *core.FuncDecl) {
 		pos   token.Pos
 	}
 	var arms []armPath
+	resetJudged := map[token.Pos]bool{}
+	defer func() {
+		// who may reset the back-off: only the exit path of a successful current instance (judged above);
+		// a Reset anywhere else in the package (start, the API functions, the retry timer) makes every
+		// restart begin from the initial interval again and a bounded back-off never reach Stop
+		for _, d := range pkgDecls(c, s.pkg) {
+			d := d
+			ast.Inspect(d.Decl.Body, func(n ast.Node) bool {
+				call, ok := n.(*ast.CallExpr)
+				if !ok {
+					return true
+				}
+				sel, ok := unparen(call.Fun).(*ast.SelectorExpr)
+				if !ok || sel.Sel.Name != "Reset" || len(call.Args) != 0 {
+					return true
+				}
+				fv := fieldVar(sel.X, &core.Frame{Pkg: d.Pkg})
+				if fv == nil || core.FieldName(fv) != retryBo {
+					return true
+				}
+				a.note("R5c", s.pkg+"/back-off-reset-only-by-successful-exit", call.Pos(), !resetJudged[call.Pos()],
+					"the retry back-off is reset only on the exit path of a successful current instance",
+					"the retry back-off is reset in "+core.FuncName(d.Obj)+", outside the exit path of a successful instance: restarts (including the automatic retries) begin from the initial interval again and a bounded back-off never gives up", nil)
+				return true
+			})
+		}
+	}()
 	c.Walk("R12", &core.Config{Follow: func(f *types.Func) bool {
 		return f.Pkg() != nil && RelPkg(f.Pkg().Path()) == s.pkg && f.Origin() != start.Obj && f.Origin() != exec.Obj
 	}}, core.Entry{Decl: exec}, func(p *core.Path) {
@@ -170,6 +197,7 @@ func (s *sup) execute(exec, start *core.FuncDecl) {
 		sawCurrent := false
 		userCall := -1
 		var userErr *types.Var
+		ownCancel := false
 		tampered := token.NoPos
 		for i, ev := range p.Events {
 			// the user function's result: err = r.routine(ctx)
@@ -182,6 +210,15 @@ func (s *sup) execute(exec, start *core.FuncDecl) {
 						userErr = v
 					} else if v == userErr {
 						tampered = ev.Pos
+					}
+				}
+			}
+			// the instance cancels its own context once the routine has returned: a dynamic call of a
+			// context.CancelFunc (the parameter handed by start, or the record's field) after the user call
+			if userCall >= 0 && i > userCall && (ev.Kind == core.KCall || ev.Kind == core.KDefer) && ev.Callee == nil && ev.Builtin == "" && ev.Call != nil {
+				if t := ev.Frame.Info().TypeOf(ev.Call.Fun); t != nil {
+					if n, ok := t.(*types.Named); ok && n.Obj().Name() == "CancelFunc" && n.Obj().Pkg() != nil && n.Obj().Pkg().Path() == "context" {
+						ownCancel = true
 					}
 				}
 			}
@@ -224,6 +261,7 @@ func (s *sup) execute(exec, start *core.FuncDecl) {
 				a.requireGuard("R5c", name+"/arm-retry", g, i, false, fand(current, armWant), "arming the retry timer")
 			}
 			if (ev.Kind == core.KCall || ev.Kind == core.KEnter) && ev.Callee != nil && ev.Callee.Name() == "Reset" && strings.Contains(core.ExprString(ev.Call.Fun), "retryBo") {
+				resetJudged[ev.Call.Pos()] = true
 				a.requireGuard("R5c", name+"/reset-backoff", g, i, false, fand(current, fld(s.f("success"))), "resetting the back-off")
 			}
 			if g.lits[i] != nil && strings.Contains(g.lits[i].f.String(), current.String()) && g.lits[i].val {
@@ -232,6 +270,11 @@ func (s *sup) execute(exec, start *core.FuncDecl) {
 		}
 		if sawCurrent && p.End == core.EndReturn {
 			arms = append(arms, armPath{lits: g.litsBefore(len(p.Events), false), armed: armed, p: p, pos: exec.Decl.Pos()})
+		}
+		if userCall >= 0 && p.End == core.EndReturn {
+			a.note("R4", name+"/cancels-own-context-on-exit", p.Events[userCall].Pos, !ownCancel,
+				"an instance whose routine returned cancels its own context",
+				"a path on which the routine returned never calls the instance's cancel func: an instance that exited on its own keeps a live context (and whatever the routine bound to it) after the container moved on", p)
 		}
 	})
 	// ⇔: a current-instance exit that satisfies the arming condition arms the timer
@@ -272,13 +315,34 @@ func (s *sup) execute(exec, start *core.FuncDecl) {
 		}
 		c.Walk("R5b", &core.Config{}, cb.entry(), func(p *core.Path) {
 			g := prepare(c, p)
+			want := fand(fand(fnot(eq("nil", s.ctxFld)), regd), fld(s.f("exited")))
+			restarted := false
+			firstWrite := len(p.Events)
 			for i, ev := range p.Events {
+				if ev.Kind == core.KAssign && !ev.FieldInit && ev.Var != nil && ev.Var.IsField() && i < firstWrite {
+					firstWrite = i
+				}
 				if !callsFunc(ev, core.FuncName(start.Obj)) {
 					continue
 				}
-				want := fand(fand(fnot(eq("nil", s.ctxFld)), regd), fld(s.f("exited")))
+				restarted = true
 				a.requireGuard("R5b", lname+"/restart", g, i, false, want, "the retry restart")
 				a.note("R5b", lname+"/restart/locked", ev.Pos, !holdsLock(ev, s.lock), "the retry restart runs under the owner lock", "the retry restart runs without the owner lock", p)
+			}
+			// ⇔: the timer that fired was the only thing that would have run the record again — a path that
+			// does not restart has found (on the state as it was when the callback took the lock, before
+			// any write of its own) no context, a record that is no longer registered, or one that has not exited
+			if !restarted && p.End == core.EndReturn {
+				var pre []*r2Lit
+				for j := 0; j < firstWrite; j++ {
+					if g.lits[j] != nil {
+						pre = append(pre, g.lits[j])
+					}
+				}
+				ok, cx := implies(pre, fnot(want))
+				a.note("R5b", lname+"/restart/complete", entryPos(cb.entry()), !ok,
+					"a firing of the retry timer that does not restart has found no context, an unregistered record or an instance that has not exited",
+					c.Pretty(sprintf("the retry timer callback returns without restarting on a path that has not excluded %s before it wrote anything (conditions: %s; counterexample %s): the pending retry is consumed and nothing runs the failed routine again", want, litsString(pre), cx)), p)
 			}
 		})
 		a.expect("R5b", lname+"/restart", 1, "restart in the retry timer callback")
@@ -358,6 +422,25 @@ func (s *sup) api(start, exec *core.FuncDecl) {
 				}
 				if ev.Kind == core.KGo && ev.Callee == exec.Obj {
 					started = true
+				}
+				// who may forget a success: the recorded success of an instance is cleared only inside a
+				// forced start (forceRestart is the constant true at the call site), or where the path has
+				// shown there is none to forget — whichever helper the write sits in
+				if assignsField(ev, s.f("success"), "false") {
+					forced := false
+					for fr := ev.Frame; fr != nil; fr = fr.Parent {
+						if fr.Fn != nil && fr.Fn.Origin() == start.Obj && fr.Call != nil && fr.Parent != nil && len(fr.Call.Args) == 3 {
+							if tv, ok := fr.Parent.Info().Types[unparen(fr.Call.Args[2])]; ok && tv.Value != nil && tv.Value.ExactString() == "true" {
+								forced = true
+							}
+						}
+					}
+					if !forced {
+						okNone, _ := implies(g.litsBefore(i, false), fnot(fld(s.f("success"))))
+						a.note("R12", enclosingName(c, ev)+"/success-forgotten-only-by-forced-start", ev.Pos, !okNone,
+							"a recorded success is cleared only inside a forced start, or where the path has shown the instance did not succeed",
+							"the success flag is cleared on a path from "+e.Name+" that is not inside a forced start and has not shown the flag false: a later start(…, false) — SetContext after ClearContext, a context swap — runs a routine that had returned nil again", p)
+					}
 				}
 				if assignsField(ev, s.ctxFld, "") && ev.Rhs != nil {
 					if v := identVar(ev.Rhs, ev.Frame); v != nil {
@@ -662,6 +745,29 @@ func (s *sup) keyedExtras() {
 			}
 		})
 		a.expect("R6b", name+"/kept-record-removal-cancelled", 1, "the existed-path of "+fn)
+	}
+	// SyncKeys: every returning path scans the record table for keys that were not requested (the
+	// removal half of "the key set equals what was asked for"): no shortcut decides from lengths
+	if d := c.declByName("R6b", "keyed", "Keyed", "SyncKeys"); d != nil {
+		name := core.FuncName(d.Obj)
+		c.Walk("R6b", &core.Config{Unroll: 1, Follow: helperFollow(s.pkg, "start", "execute")}, core.Entry{Decl: d}, func(p *core.Path) {
+			if p.End != core.EndReturn {
+				return
+			}
+			scanned := false
+			for _, ev := range p.Events {
+				if ev.Kind == core.KRange {
+					if rs, ok := ev.Node.(*ast.RangeStmt); ok {
+						if fv := fieldVar(rs.X, ev.Frame); fv != nil && core.FieldName(fv) == s.slot {
+							scanned = true
+						}
+					}
+				}
+			}
+			a.note("R6b", name+"/removal-scan-on-every-path", d.Decl.Pos(), !scanned,
+				"every path ranges over the record table to remove the keys that were not requested",
+				"a path of SyncKeys returns without ranging over the record table: keys that are held but were not requested stay in the set (a shortcut on lengths is wrong as soon as the request repeats a key)", p)
+		})
 	}
 	// KeyedRefCount
 	if d := c.declByName("R12", "keyed", "KeyedRefCount", "AddKeyRef"); d != nil {
